@@ -152,5 +152,9 @@ def oracle(ctx):
         for n in names:
             for f in check_refs(n, fs[n], fs, results[n], results):
                 res.oracle_failures.append(dict(op=op, input=dict(unit=n, files=fs), impl_output=str(results[n])[:700], oracle_expectation=f))
+    # the same sets through the real loader and main loop, with the tail of some files (naming keys, references) moved into
+    # drop-ins: the name a referrer sees is the name the unit creates after its drop-ins are merged
+    import filespell
+    filespell.compare(ctx, [fs for _, fs, _ in sets[:600 if ctx.thorough else 150]], filespell.DROPIN_WAYS, 'C08 names and references in drop-ins')
     res.samples.append(dict(kind='oracle-case', files=sets[0][1], order=[sets[0][0][i] for i in sets[0][2]]))
     ctx.log(f'oracle: {res.oracle_evals} evaluations, {len(res.oracle_failures)} failures')
